@@ -239,7 +239,9 @@ func RunWorker(c Check, tier string, seed uint64, from, to, stride int, outPath,
 }
 
 // CaseTimeouter lets a check set the watchdog of one case (default 5 minutes).
-type CaseTimeouter interface{ CaseTimeout(tier string) time.Duration }
+type CaseTimeouter interface {
+	CaseTimeout(tier string) time.Duration
+}
 
 func runCaseRecover(c Check, w *Worker, i int, cs uint64, res *CaseResult) {
 	defer func() {
